@@ -1,6 +1,7 @@
 (* C03 — Expansion leaves only resolvable cycle cut-points; acyclic specs end $ref-free. *)
 From Coq Require Import List String Bool.
-From Spec Require Import Base.Json Base.Url Codec.Types Codec.Codec Expand.Expand Expand.ExpandFacts.
+From Spec Require Import Base.Json Base.Url Codec.Types Codec.Gen_Tables Codec.Codec Codec.CodecFacts Expand.Expand Expand.ExpandFacts
+  Expand.ExpandSim Expand.ExpandSimCheck Expand.ExpandCycle Expand.ExpandExample.
 Import ListNotations.
 
 (* a schema reference is kept exactly when its canonical form is already on the stack of references being expanded
@@ -53,3 +54,75 @@ Example C03_example_rendering :
   = [("#/definitions/a", "file:///r/root.json#/definitions/a"); ("sub/o.json#/definitions/b", "file:///r/sub/o.json#/definitions/b");
      ("http://h/x.json#/d", "http://h/x.json#/d"); ("file:///q/p.json#/d", "file:///q/p.json#/d")]%string.
 Proof. vm_compute. reflexivity. Qed.
+
+(* ---------- graph level (Expand/ExpandCycle.v) ----------
+   The input graph: located schema objects (ExpandSim.v), an edge from an object without reference to each object at one
+   of its sub-schema positions and from a reference holder to its target.  [on_cycle nref]: some holder of the canonical
+   reference nref has a target from which a holder of nref is reachable.  [out_ok j']: every `$ref` left in j' (at a
+   sub-schema position, at any depth) is the rendering of a reference that is on a cycle (or was handed in by the caller
+   on the stack / in the memo: bad0).  Proved for every store, state, stack, fuel, AbsoluteCircularRef setting, in strict
+   full mode, for graphs satisfying the well-formedness hypotheses of C02 (decided by check_nodes). *)
+Theorem C03_kept_refs_lie_on_cycles : forall E docs cwd OP ctx_base rid nodes live bad0,
+  check_nodes E docs cwd OP ctx_base rid nodes = true ->
+  (forall lu ld, live = Some (lu, ld) -> doc_at docs cwd lu = Some ld) ->
+  o_cont OP = false -> o_skip OP = false ->
+  forall d s parents rroot base j s' j',
+    GN nodes base j -> Inv2 E docs cwd rid (GN nodes) bad0 s -> Coh cwd rroot base -> PInv E docs cwd (GN nodes) bad0 parents (base, j) ->
+    exp E docs cwd OP ctx_base live d s parents rroot base j = Done (s', j') ->
+    Inv2 E docs cwd rid (GN nodes) bad0 s' /\ okv E docs cwd OP ctx_base rid (GN nodes) bad0 j j'.
+Proof. exact checked_graph_cyc. Qed.
+Print Assumptions C03_kept_refs_lie_on_cycles.
+
+(* acyclic input => the output holds no `$ref` at any sub-schema position *)
+Theorem C03_acyclic_ends_ref_free : forall E docs cwd OP ctx_base rid G bad0,
+  (forall nref, ~ on_cycle E docs cwd G nref) -> bad0 = [] ->
+  forall j, out_ok E docs cwd OP ctx_base rid G bad0 j -> ref_free j.
+Proof. exact acyclic_ref_free. Qed.
+Print Assumptions C03_acyclic_ends_ref_free.
+
+(* acyclicity itself is decided by a rank that every edge decreases (the nodes listed in topological order) *)
+Theorem C03_ranked_graphs_are_acyclic : forall E docs cwd OP ctx_base rid nodes,
+  check_nodes E docs cwd OP ctx_base rid nodes = true -> rank_check E docs cwd nodes = true -> canon_check nodes = true ->
+  forall nref, ~ on_cycle E docs cwd (GN nodes) nref.
+Proof. exact checked_graph_acyclic. Qed.
+Print Assumptions C03_ranked_graphs_are_acyclic.
+
+(* non-vacuity, cyclic graph: the expansion of `a` succeeds and everything it leaves behind is on a cycle *)
+Example C03_example_cyclic : forall abs s' j',
+  exp gen_env ex_docs "/" (mkOpts false false abs) ex_root_url ex_live 8 ex_s0 [] (Some ex_root_url) ex_root_url ex_start = Done (s', j') ->
+  out_ok gen_env ex_docs "/" (mkOpts false false abs) ex_root_url "" (GN ex_nodes) [] j'.
+Proof.
+  intros abs s' j' H.
+  assert (Hck : check_nodes gen_env ex_docs "/" (mkOpts false false abs) ex_root_url "" ex_nodes = true) by (destruct abs; vm_compute; reflexivity).
+  assert (Hlive : forall lu ld, ex_live = Some (lu, ld) -> doc_at ex_docs "/" lu = Some ld) by (intros lu ld E; inversion E; subst; vm_compute; reflexivity).
+  assert (Hg : GN ex_nodes ex_root_url ex_start) by (vm_compute; tauto).
+  assert (Hinv : Inv2 gen_env ex_docs "/" "" (GN ex_nodes) [] ex_s0) by (split; [split; [intros u d E; discriminate|reflexivity]|intros x []]).
+  assert (Hcoh : Coh "/" (Some ex_root_url) ex_root_url) by (intros ru E; inversion E; subst; reflexivity).
+  assert (HP : PInv gen_env ex_docs "/" (GN ex_nodes) [] [] (ex_root_url, ex_start)) by (intros p []).
+  exact (proj2 (C03_kept_refs_lie_on_cycles _ _ _ _ _ _ _ _ _ Hck Hlive eq_refl eq_refl _ _ _ _ _ _ _ _ Hg Hinv Hcoh HP H)).
+Qed.
+Example C03_example_cyclic_runs : exists s' j',
+  exp gen_env ex_docs "/" (mkOpts false false false) ex_root_url ex_live 8 ex_s0 [] (Some ex_root_url) ex_root_url ex_start = Done (s', j').
+Proof. vm_compute. eexists. eexists. reflexivity. Qed.
+
+(* non-vacuity, acyclic graph (two documents, four references): the checks hold and the output is reference-free *)
+Example C03_example_acyclic : forall s' j',
+  exp gen_env ac_docs "/" (mkOpts false false false) ex_root_url ac_live 8 ex_s0 [] (Some ex_root_url) ex_root_url ac_start = Done (s', j') ->
+  ref_free j'.
+Proof.
+  intros s' j' H. set (OP := mkOpts false false false).
+  assert (Hck : check_nodes gen_env ac_docs "/" OP ex_root_url "" ac_nodes = true) by (vm_compute; reflexivity).
+  assert (Hrk : rank_check gen_env ac_docs "/" ac_nodes = true) by (vm_compute; reflexivity).
+  assert (Hcn : canon_check ac_nodes = true) by (vm_compute; reflexivity).
+  assert (Hlive : forall lu ld, ac_live = Some (lu, ld) -> doc_at ac_docs "/" lu = Some ld) by (intros lu ld E; inversion E; subst; vm_compute; reflexivity).
+  assert (Hg : GN ac_nodes ex_root_url ac_start) by (vm_compute; tauto).
+  assert (Hinv : Inv2 gen_env ac_docs "/" "" (GN ac_nodes) [] ex_s0) by (split; [split; [intros u d E; discriminate|reflexivity]|intros x []]).
+  assert (Hcoh : Coh "/" (Some ex_root_url) ex_root_url) by (intros ru E; inversion E; subst; reflexivity).
+  assert (HP : PInv gen_env ac_docs "/" (GN ac_nodes) [] [] (ex_root_url, ac_start)) by (intros p []).
+  pose proof (proj2 (C03_kept_refs_lie_on_cycles _ _ _ _ _ _ _ _ _ Hck Hlive eq_refl eq_refl _ _ _ _ _ _ _ _ Hg Hinv Hcoh HP H)) as Hok.
+  eapply C03_acyclic_ends_ref_free; [exact (C03_ranked_graphs_are_acyclic _ _ _ _ _ _ _ Hck Hrk Hcn)|reflexivity|exact Hok].
+Qed.
+Print Assumptions C03_example_acyclic.
+Example C03_example_acyclic_runs : exists s' j',
+  exp gen_env ac_docs "/" (mkOpts false false false) ex_root_url ac_live 8 ex_s0 [] (Some ex_root_url) ex_root_url ac_start = Done (s', j').
+Proof. vm_compute. eexists. eexists. reflexivity. Qed.
